@@ -384,6 +384,19 @@ def directed(recvs, by_name, k):
                  "cinfo": {"rename_all": None, "default": None, "post": post, "auk": False, "from_word": None, "from_none": None}}
             recvs.append(x)
             by_name[name] = x
+    # a flatten member that is a derived NEWTYPE around a struct (resp. an enum): the newtype forwards the list it is handed
+    def add_plain_newtype(inner):
+        nonlocal k
+        name = "R%d" % k
+        k += 1
+        x = {"name": name, "kind": "newtype", "trait": "FromMeta", "inner": inner, "has_default": True, "all_names": [],
+             "depth": 1 + ty_depth(inner, by_name),
+             "cinfo": {"rename_all": None, "default": None, "post": None, "auk": False, "from_word": None, "from_none": None}}
+        recvs.append(x)
+        by_name[name] = x
+        return name
+    add_struct([F("width", O(L("u8"))), F("rest", Rv(add_plain_newtype(Rv(deep))), flatten=True)])
+    add_struct([F("label", O(L("String"))), F("mode", Rv(add_plain_newtype(Rv(mode))), flatten=True)], rule="kebab-case")
     add_enum([{"ident": "Sink", "style": "struct", "fields": sink(False)}, {"ident": "Drain", "style": "unit"}], rule="camelCase")
     add_enum([{"ident": "Sink", "style": "struct", "fields": sink(False)}, {"ident": "Other", "style": "struct", "fields": sink(False), "skip": True}],
              auk=True)
